@@ -52,6 +52,7 @@ func runC17(c *core.Ctx) {
 	c.Clause("C17.4 (necessary condition of catch-up only, not liveness) a rejected probe strictly lowers nextIndex; a compacted entry leads to snapshot installation")
 	h.probeBackoffProgress("C17.4 probe-backoff")
 	h.snapshotFallback("C17.4b snapshot-fallback")
+	h.requestsFromOwnLog("C17.4d requests-at-snapshot-boundary")
 	h.campaignProgress("C17.5 campaign-progress")
 	h.appendRefusalJustified("C17.4c append-refusal-justified")
 	h.commitThenApply("C17.6 commit-then-apply")
